@@ -250,7 +250,8 @@ impl WorkerPool {
         let timeout = Duration::from_millis(config.timeout_ms);
 
         loop {
-            if shutdown_flag.load(Ordering::Relaxed) {
+            // On shutdown, first finish the packets that were already queued (they were reported as queued)
+            if shutdown_flag.load(Ordering::Relaxed) && rx.is_empty() {
                 debug!("TLS worker {} received shutdown signal", worker_id);
                 break;
             }
